@@ -19,7 +19,7 @@ LEVEL_TEXT = ('Lean 4 theorems, for all shapes, masks, amplitudes and OPDs: a su
               'a fresh wavefront through any non-empty chain of array-masked partitioned planes, then propagate_dft as the driver models it (generated window block and shapes, a tilt shift common to all fields, optional output mask: segmented_eq_monolithic_propagateDft) -> equal Wavefront.field and intensity at every sample; well-formedness follows from the masks alone for constructed planes (splitPlane_wf_of_masks); Tilt planes anywhere in the chain and Wavefront(tilt=) as ONE theorem (segmented_eq_monolithic_interleaved: every field carries each Tilt once, data unchanged); through propagate_fft by composition with C09 (segmented_eq_monolithic_propagate_fft); chain_exp: the explicit product of amplitude*exp(2 pi i opd/lambda) over the planes. The NumPy plumbing is a hand model checked against the '
               'implementation, with both descriptions run on the real code.')
 LEVEL_NOTE = ('Partial: segments / intermediate fields with exactly one element are excluded by hypothesis (open known finding '
-              'KF-C03-one-pixel-segment; the hypothesis ExtOK is evaluated by the model (c03.extok, extOKb_iff) on every case of the classes the ExtOK theorems cover: segmented-vs-monolithic chains in both number systems and the mixed Tilt/segmented chains; not for the fitted-tilt, re-use and big-aperture classes); the theorems '
+              'KF-C03-one-pixel-segment — not repaired because C06 as given makes a (1,1) array a broadcastable constant, so the two properties conflict on that input; the hypothesis ExtOK is evaluated by the model (c03.extok, extOKb_iff) on every case of the classes the ExtOK theorems cover: segmented-vs-monolithic chains in both number systems and the mixed Tilt/segmented chains; not for the fitted-tilt, re-use and big-aperture classes); the theorems '
               'cover a shift common to all fields (shared Tilt planes, Wavefront(tilt=)), an output mask and propagate_fft (via C09); per-segment '
               'fitted tilts are correspondence + oracle only. '
               'Trusted: Lean kernel, py2lean subset semantics, NumPy semantics as modelled, np.dot sums, generator coverage.')
@@ -41,8 +41,7 @@ UNPROVEN = [
             'the end-to-end theorems start from a fresh wavefront and use planes with array masks (scalar-mask planes inside the chain: plane_multiply_total only)',
             'planes re-used after the amplitude/OPD setters and copy(), and rescaled/resampled planes (bounding slices of the new mask): oracle only; the interpolation itself is C17',
             'partitions containing a segment (or producing an intermediate field) with exactly one element (known finding KF-C03-one-pixel-segment)']
-ASSUMPTIONS = ['a partition into k = 1 segment is given as the 2-D mask: a 3-D mask with a single layer makes Plane.multiply raise ValueError on the unchanged tree (reported with a candidate fix /tmp/wC/fix_single_layer.diff; single-layer cases are parked on branch wC-single-layer)',
-               'rescaled/resampled planes are judged only when Plane.rescale returns: for small segments the order-0 rescaled mask can lose a layer and rescale then raises IndexError in _plane_slice (C17; reported)',
+ASSUMPTIONS = ['rescaled/resampled planes are judged only when Plane.rescale returns: for small segments the order-0 rescaled mask can lose a layer and rescale then raises IndexError in _plane_slice (C17; reported)',
                'every segment bounding box and every intersection of boxes along the chain has more than one element (ExtOK: a condition on the bounding slices and shapes of the input, used by segmented_eq_monolithic_end_to_end)',
                'segment masks of one plane have pairwise disjoint supports']
 
@@ -59,7 +58,7 @@ def _split_plane(rng, mode, shape):
         def mk(ls):
             sc = int(rng.choice([1, 1, 1, 2, -1]))          # raw mask entries other than 0/1: the constructor normalises them
             return {'kind': 'pupil', 'amp': amp, 'opd': opd, 'px': None, 'fl': 1.0,
-                    'mask': {'shape': [int(shape[0]), int(shape[1])], 'ndim': 2 if len(ls) == 1 else 3,
+                    'mask': {'shape': [int(shape[0]), int(shape[1])], 'ndim': (2 if rng.integers(0, 2) else 3) if len(ls) == 1 else 3,
                              'layers': [[int(x) * sc for x in L.ravel()] for L in ls]}}
         return mk(layers), mk([M])
     raise RuntimeError('could not build a partition')
